@@ -147,23 +147,26 @@ def render_statement(tokens, layout=None, gap0=0, kw0=0, stats=None):
     return "".join(out), gi, ki
 
 
-def render_script(statements, layout=None, stats=None):
-    """statements: list of token lists (each ending with END) or raw strings (emitted verbatim).
-    Every statement ends with ';' at the end of a line."""
+def render_parts(statements, layout=None, stats=None):
+    """-> one text per statement (incl. its line end); ''.join(parts) is the script"""
     parts = []
     gi = ki = 0
     tail = (layout or {}).get("tail", 0)
+    crlf = (layout or {}).get("crlf")
     for n, st in enumerate(statements):
         if isinstance(st, str):
-            parts.append(st.rstrip("\n"))
+            text = st.rstrip("\n")
         else:
             text, gi, ki = render_statement(st, layout, gi, ki, stats)
-            parts.append(text)
-        parts.append("\n\n" if (tail >> (n % 16)) & 1 else "\n")
-    text = "".join(parts)
-    if (layout or {}).get("crlf"):
-        text = text.replace("\n", "\r\n")
-    return text
+        text += "\n\n" if (tail >> (n % 16)) & 1 else "\n"
+        parts.append(text.replace("\n", "\r\n") if crlf else text)
+    return parts
+
+
+def render_script(statements, layout=None, stats=None):
+    """statements: list of token lists (each ending with END) or raw strings (emitted verbatim).
+    Every statement ends with ';' at the end of a line."""
+    return "".join(render_parts(statements, layout, stats))
 
 
 def layout_differences(tokens_list, layout):
